@@ -220,6 +220,12 @@ func c18ChildA(t *testing.T) {
 				queued := myHits["snow.accept.afterQueue"] - myHits["snow.accept.afterNotify"]
 				hmu.Unlock()
 				ev.add(c18Event{Ev: "crash", Msg: fmt.Sprintf("%s#%d", name, k), Hits: p.Hits(), Queued: queued})
+				if depth == 0 && (name == "snow.accept.afterIndex" || name == "snow.accept.afterQueue") {
+					// depth 0: the accepter is free to run. Let it get ahead of the engine
+					// thread parked here before the process goes away (schedule steering only:
+					// whatever it managed to do, the restart must cope with it).
+					time.Sleep(250 * time.Millisecond)
+				}
 				os.Exit(77)
 			}
 			if name == "snow.accept.afterNotify" {
@@ -290,16 +296,21 @@ func c18ChildA(t *testing.T) {
 		ev.add(c18Event{Ev: "built", H: blk.Height(), ID: blk.ID().String(), Bytes: hex.EncodeToString(blk.Bytes()), NTx: ntx})
 		awaitMempoolIdle()
 		ev.add(c18Event{Ev: "accept_start", H: blk.Height()})
+		if depth == 0 {
+			tokens <- struct{}{} // nothing holds the accepter back: it may process block i while Accept is still running
+		}
 		if err := blk.Accept(ctx); err != nil {
 			fail("A: Accept(%d): %v", i, err)
 		}
 		ev.add(c18Event{Ev: "accept_ret", H: blk.Height()})
-		if j := i - depth; j >= 1 {
+		if depth == 0 {
+			waitProcessed(i)
+		} else if j := i - depth; j >= 1 {
 			tokens <- struct{}{}
 			waitProcessed(j)
 		}
 	}
-	for j := max(1, n-depth+1); j <= n; j++ {
+	for j := max(1, n-depth+1); j <= n && depth > 0; j++ {
 		tokens <- struct{}{}
 		waitProcessed(j)
 	}
@@ -683,6 +694,13 @@ func TestC18(t *testing.T) {
 					for k := 1; k <= cf.N; k++ {
 						cases = append(cases, c18Case{Point: p, Hit: k, N: cf.N, Depth: d})
 					}
+				}
+			}
+			// depth 0: the accepter is never held back and the crash on the engine thread's part of
+			// Accept leaves it 250 ms to run ahead (index update vs. queueing vs. processing order)
+			for _, p := range []string{"snow.accept.afterIndex", "snow.accept.afterQueue"} {
+				for k := 1; k <= cf.N; k++ {
+					cases = append(cases, c18Case{Point: p, Hit: k, N: cf.N, Depth: 0})
 				}
 			}
 		}
